@@ -365,7 +365,11 @@ impl Tracer {
                         // PTRACE_EVENT_STOP may be received first, and new tracee may be already registered at this point
                         if self.tracee_ctl.tracee_mut(new_thread_id).is_none() {
                             let new_tracee = self.tracee_ctl.add(new_thread_id);
-                            let new_trace_status = new_tracee.wait_one()?;
+                            let new_trace_status = match new_tracee.wait_one() {
+                                // the new thread was already seen, has finished and is reaped
+                                Err(Waitpid(Errno::ECHILD)) => WaitStatus::Exited(new_thread_id, 0),
+                                status => status?,
+                            };
                             if matches!(new_trace_status, WaitStatus::Exited(_, _)) {
                                 // this situation can occur if the process has already completed
                                 self.tracee_ctl.remove(new_thread_id);
